@@ -89,6 +89,40 @@ func runEG(c *Ctx, s *Sink) {
 				key := fmt.Sprintf("%s:add#%d", fname, nAdd)
 				found, wrong := false, ""
 				for _, later := range list[i+1:] {
+					// a helper that increments the SonCount of the node it receives (father.addSon(&lock))
+					ast.Inspect(later, func(n ast.Node) bool {
+						call, ok := n.(*ast.CallExpr)
+						if !ok {
+							return true
+						}
+						body, cinfo, bind := c.calleeSource(info, defs, call)
+						if body == nil {
+							return true
+						}
+						ast.Inspect(body, func(k ast.Node) bool {
+							inc, ok := k.(*ast.IncDecStmt)
+							if !ok {
+								return true
+							}
+							sel, ok := ast.Unparen(inc.X).(*ast.SelectorExpr)
+							if !ok || sel.Sel.Name != "SonCount" {
+								return true
+							}
+							if arg, ok := bind[rootObj(cinfo, sel.X)]; ok {
+								idx := nodeIndex(arg)
+								switch {
+								case inc.Tok != token.INC:
+									wrong = "SonCount is decremented after an edge is added"
+								case idx != father:
+									wrong = fmt.Sprintf("the edge points to node %s but SonCount of node %s is incremented", father, idx)
+								default:
+									found = true
+								}
+							}
+							return true
+						})
+						return true
+					})
 					ast.Inspect(later, func(n ast.Node) bool {
 						if inc, ok := n.(*ast.IncDecStmt); ok && isField(inc.X, "SonCount") {
 							sel := ast.Unparen(inc.X).(*ast.SelectorExpr)
